@@ -21,6 +21,16 @@
 (* destination; that the destination is then complete is what TLC checks   *)
 (* (OldOrNew), it is not built into the action.                            *)
 (*                                                                         *)
+(* Tensors are of three kinds (configuration fields backed / other):        *)
+(*   backed  ExternalTensors whose backing file IS the destination (also    *)
+(*           when reached through a symbolic link, a hard link or another   *)
+(*           spelling of the path: the code asks os.path.samefile),         *)
+(*   other   ExternalTensors saved in the same call that are backed by      *)
+(*           ANOTHER file (same file name under another base directory,     *)
+(*           another name in the destination directory, ...): bystanders,   *)
+(*           the design never releases or invalidates them,                 *)
+(*   the rest: in-memory tensors, written in nc chunks.                     *)
+(*                                                                         *)
 (* The configuration is a VARIABLE (chosen in Init) so that one TLC run    *)
 (* covers all configurations and the trace specification can take it from  *)
 (* the recorded run.                                                       *)
@@ -30,7 +40,7 @@ EXTENDS Naturals, FiniteSets, Sequences, TLC
 CONSTANT MaxFaults      \* number of effects that may fail in one run
 
 VARIABLES
-  cfg,        \* [nt, nc, dest, backed, par, shard, pre, lim, sh]
+  cfg,        \* [nt, nc, dest, backed, other, par, shard, pre, lim, sh]
   files,      \* data files of the directory: sequence of [data, mode]; file 1 = plain name, 2.. = numbered shards
   link,       \* the requested path is (still) a symbolic link to the destination
   tdir,       \* the temporary directory exists
@@ -42,7 +52,7 @@ VARIABLES
   queue,      \* tensors not yet taken by a worker
   cancelled,  \* the main thread has seen a failed task and cancelled the queue
   wfail,      \* some task has failed
-  mapped,     \* mapped[t]: ExternalTensor t (backed by the destination) holds a memory map
+  mapped,     \* mapped[t]: ExternalTensor t (backed by the destination or by another file) holds a memory map
   valid,      \* valid[t]:  ExternalTensor t has not been invalidated
   pc, sub,    \* program counter of the saving thread; step inside the serial tensor loop
   cur,        \* shard being produced (its destination file is CurF)
@@ -64,21 +74,22 @@ Workers == {1, 2}
 -------------------------------------------------------------------------------
 (* Layout                                                                    *)
 
-NChunksOf(nc, backed, t) == IF t \in backed THEN 1 ELSE nc  \* an ExternalTensor is copied by one copy_file_range
-NChunksC(c, t) == NChunksOf(c.nc, c.backed, t)
+ExtC(c) == c.backed \cup c.other                     \* the ExternalTensors among the tensors being saved
+NChunksOf(nc, ext, t) == IF t \in ext THEN 1 ELSE nc  \* an ExternalTensor is copied by one copy_file_range, whatever file backs it
+NChunksC(c, t) == NChunksOf(c.nc, ExtC(c), t)
 
 (* _shard_tensors (no alignment), sizes and limit in chunks: tensors stay in declaration order; a new
    shard is started when the next tensor would exceed the limit, but a shard is never left empty.
    The result maps every tensor to its shard; the number of shards is the last entry.            *)
 RECURSIVE Greedy(_, _, _, _, _, _, _)
-Greedy(nt, nc, backed, lim, t, s, size) ==
+Greedy(nt, nc, ext, lim, t, s, size) ==
   IF t > nt THEN <<>>
-  ELSE LET n == NChunksOf(nc, backed, t) IN
+  ELSE LET n == NChunksOf(nc, ext, t) IN
        IF size + n > lim /\ size > 0
-       THEN <<s + 1>> \o Greedy(nt, nc, backed, lim, t + 1, s + 1, n)
-       ELSE <<s>> \o Greedy(nt, nc, backed, lim, t + 1, s, size + n)
-ShardAssign(nt, nc, backed, shard, lim) ==
-  IF shard THEN Greedy(nt, nc, backed, lim, 1, 1, 0) ELSE [t \in 1..nt |-> 1]
+       THEN <<s + 1>> \o Greedy(nt, nc, ext, lim, t + 1, s + 1, n)
+       ELSE <<s>> \o Greedy(nt, nc, ext, lim, t + 1, s, size + n)
+ShardAssign(nt, nc, ext, shard, lim) ==      \* ext = all ExternalTensors (backed by the destination or not)
+  IF shard THEN Greedy(nt, nc, ext, lim, 1, 1, 0) ELSE [t \in 1..nt |-> 1]
 
 (* Destination files.  A single-file save and a sharded save that yields ONE shard write the plain
    name (file 1).  A sharded save with n > 1 shards writes the numbered names (files 2..n+1); the
@@ -106,7 +117,9 @@ LastT(s)   == CHOOSE t \in Tens(s) : \A u \in Tens(s) : t >= u
 CurF       == DestFileC(cfg, cur)                       \* destination file of the shard being produced
 UsePar     == cfg.par /\ Cardinality(Tens(cur)) > 1
 MaxOf(a, b) == IF a > b THEN a ELSE b
-(* ExternalTensors among the tensors being written whose backing file IS the current destination *)
+Ext        == ExtC(cfg)
+(* ExternalTensors among the tensors being written whose backing file IS the current destination
+   (os.path.samefile(tensor.path, destination)); the tensors of cfg.other never are                *)
 BackedHere == IF CurF = 1 THEN cfg.backed \cap Tens(cur) ELSE {}
 
 (* what is in the directory before the save: dest says whether the plain-name file exists,
@@ -118,8 +131,9 @@ WellFormedCfg(c) ==
   /\ c.nt \in 1..3 /\ c.nc \in 1..2
   /\ c.dest \in {"absent", "file", "symlink"}
   /\ c.backed \subseteq 1..c.nt /\ (c.backed # {} => c.dest # "absent")
+  /\ c.other \subseteq 1..c.nt /\ c.other \cap c.backed = {}
   /\ c.par \in BOOLEAN /\ c.shard \in BOOLEAN
-  /\ c.sh = ShardAssign(c.nt, c.nc, c.backed, c.shard, c.lim)
+  /\ c.sh = ShardAssign(c.nt, c.nc, ExtC(c), c.shard, c.lim)
   /\ (c.shard => /\ c.dest \in {"absent", "file"} /\ ~c.par /\ c.lim >= 1
                   /\ c.pre \subseteq (IF Numbered(c) THEN 1..NShardsC(c) ELSE {}))
   /\ (~c.shard => c.pre = {} /\ c.lim = 0)
@@ -141,8 +155,8 @@ InitFor(c) ==
   /\ tdir = FALSE /\ tfile = AbsentC /\ tmode = "none"
   /\ hmain = FALSE /\ hw = [w \in Workers |-> FALSE]
   /\ wk = [w \in Workers |-> IdleW] /\ queue = <<>> /\ cancelled = FALSE /\ wfail = FALSE
-  /\ mapped = [t \in c.backed |-> TRUE]        \* worst case: the tensor has been read before
-  /\ valid = [t \in c.backed |-> TRUE]
+  /\ mapped = [t \in ExtC(c) |-> TRUE]        \* worst case: the tensor has been read before
+  /\ valid = [t \in ExtC(c) |-> TRUE]
   /\ pc = (IF c.shard THEN "precheck" ELSE "mktmp") /\ sub = "cb"
   /\ cur = 1 /\ nxt = 1 /\ chk = 1
   /\ exc = FALSE /\ out = "running"
@@ -207,14 +221,14 @@ Callback(t, w, r) ==
   /\ \/ /\ pc = "serial" /\ sub = "cb" /\ t = nxt /\ w = 0
         /\ IF r = "ok"
            THEN Bk("Callback", t, 0, r, FALSE)
-                /\ Ctl("serial", IF t \in cfg.backed THEN "src" ELSE "write", cur, nxt, 1)
+                /\ Ctl("serial", IF t \in Ext THEN "src" ELSE "write", cur, nxt, 1)
            ELSE Bk("Callback", t, 0, r, TRUE) /\ Goto("close")
         /\ UNCHANGED wv
      \/ /\ pc = "workers" /\ w \in Workers /\ wk[w].st = "cb" /\ wk[w].t = t
         /\ IF r = "ok"
            THEN /\ Bk("Callback", t, 0, r, exc)
                 /\ wk' = [wk EXCEPT ![w].st = IF ~hw[w] THEN "open"
-                                               ELSE IF t \in cfg.backed THEN "src" ELSE "write",
+                                               ELSE IF t \in Ext THEN "src" ELSE "write",
                                     ![w].j = 1]
                 /\ UNCHANGED wfail
            ELSE /\ Bk("Callback", t, 0, r, exc)
@@ -222,7 +236,7 @@ Callback(t, w, r) ==
         /\ UNCHANGED <<queue, cancelled, ctl>>
   /\ UNCHANGED <<cfg, fsv, hv, tv, out, cleanupFail>>
 
-(* ExternalTensor.tofile opens its backing file (the destination) for reading *)
+(* ExternalTensor.tofile opens its backing file (the destination, or the other file) for reading *)
 OpenSrc(t, w, r) ==
   /\ r \in {"ok", "fail"}
   /\ \/ /\ pc = "serial" /\ sub = "src" /\ t = nxt /\ w = 0
@@ -238,7 +252,7 @@ OpenSrc(t, w, r) ==
 
 (* copy_file_range refused with a tolerated errno: the code falls back to read+write *)
 CfrFallback(t, w) ==
-  /\ t \in cfg.backed
+  /\ t \in Ext
   /\ \/ pc = "serial" /\ sub = "write" /\ t = nxt /\ w = 0
      \/ pc = "workers" /\ w \in Workers /\ wk[w].st = "write" /\ wk[w].t = t
   /\ faults < MaxFaults /\ faults' = faults + 1
@@ -305,7 +319,7 @@ OpenWorker(w, r) ==
   /\ Bk("OpenWorker", wk[w].t, 0, r, exc)
   /\ IF r = "ok"
      THEN /\ hw' = [hw EXCEPT ![w] = TRUE]
-          /\ wk' = [wk EXCEPT ![w].st = IF wk[w].t \in cfg.backed THEN "src" ELSE "write"]
+          /\ wk' = [wk EXCEPT ![w].st = IF wk[w].t \in Ext THEN "src" ELSE "write"]
           /\ UNCHANGED wfail
      ELSE /\ UNCHANGED hw /\ wk' = [wk EXCEPT ![w] = IdleW] /\ wfail' = TRUE
   /\ UNCHANGED <<cfg, fsv, hmain, queue, cancelled, tv, ctl, out, cleanupFail>>
@@ -482,8 +496,10 @@ S_OpenTmp     == Running /\ \E r \in RF : OpenTmp(r)
 S_Prealloc    == Running /\ \E r \in RF : Prealloc(r)
 S_CloseTmp    == Running /\ \E r \in RF : CloseTmp(r)
 S_Callback    == Running /\ TW(Callback)
-S_OpenSrc     == Running /\ TW(OpenSrc)
+S_OpenSrc     == Running /\ \E t \in cfg.backed, w \in 0..2, r \in RF : OpenSrc(t, w, r)
+S_OpenSrcOther == Running /\ \E t \in cfg.other, w \in 0..2, r \in RF : OpenSrc(t, w, r)   \* a bystander's file is a source
 S_CfrFallback == Running /\ \E t \in cfg.backed, w \in 0..2 : CfrFallback(t, w)
+S_CfrFallbackOther == Running /\ \E t \in cfg.other, w \in 0..2 : CfrFallback(t, w)
 S_WriteChunk  == Running /\ \E t \in 1..cfg.nt, j \in 1..cfg.nc, w \in 0..2, r \in RF : WriteChunk(t, j, w, r)
 S_Take        == Running /\ \E w \in Workers : Take(w)
 S_OpenWorker  == Running /\ \E w \in Workers, r \in RF : OpenWorker(w, r)
@@ -506,7 +522,7 @@ S_Crash       == Running /\ Crash
 
 Next ==
   \/ S_CheckExists \/ S_MkTmpDir \/ S_OpenTmp \/ S_Prealloc \/ S_CloseTmp \/ S_Callback \/ S_OpenSrc
-  \/ S_CfrFallback \/ S_WriteChunk \/ S_Take \/ S_OpenWorker \/ S_NoticeFail \/ S_Join \/ S_CloseWorker
+  \/ S_OpenSrcOther \/ S_CfrFallback \/ S_CfrFallbackOther \/ S_WriteChunk \/ S_Take \/ S_OpenWorker \/ S_NoticeFail \/ S_Join \/ S_CloseWorker
   \/ S_NoWorkerHandle \/ S_ReleaseMap \/ S_ReleaseDone \/ S_CopyMode \/ S_Replace \/ S_RmTmpFile
   \/ S_RmTmpDir \/ S_Invalidate \/ S_InvalidateDone \/ S_ModelIO \/ S_Return \/ S_Raise \/ S_Crash
 
@@ -522,7 +538,8 @@ DataClass(f) == LET d == files[f].data IN
 Obs == [files |-> [f \in 1..NFilesC(cfg) |-> DataClass(f)],
         modes |-> [f \in 1..NFilesC(cfg) |-> files[f].mode],
         link |-> link, tdir |-> tdir, tfile |-> tfile, out |-> out,
-        invalid |-> {t \in cfg.backed : ~valid[t]},
+        invalid |-> {t \in Ext : ~valid[t]},          \* EVERY external tensor that is no longer valid
+        ofile |-> (IF cfg.other = {} THEN "None" ELSE "Old"),   \* the bystanders' file: no effect of the save touches it
         prodFail |-> (firstFail.a \in Producing), cleanupFail |-> cleanupFail]
 
 (* an existing destination holds its previous bytes or the complete new bytes -- in EVERY state *)
@@ -536,12 +553,19 @@ P_FailKeepsOld(c, o) ==
      /\ o.invalid = {}
      /\ (~o.cleanupFail => ~o.tdir /\ o.tfile.k = "absent")
 
-P_InvalidateOnlyIfReplaced(c, o) == o.invalid # {} => o.files[1] = "New"
+(* external tensors are invalidated only when their backing file was actually replaced: never a
+   tensor backed by another file (whatever the outcome of the save), and the tensors backed by the
+   destination only once the destination holds the new bytes                                      *)
+P_BystandersKept(c, o) == o.invalid \subseteq c.backed
+P_InvalidateOnlyIfReplaced(c, o) ==
+  /\ P_BystandersKept(c, o)
+  /\ (o.invalid # {} => o.files[1] = "New")
 
 (* a sharded save (max_shard_size_bytes set) never changes a pre-existing file: neither a numbered
    shard name nor -- when everything fits one shard -- the plain name                            *)
 P_ShardNeverOverwrites(c, o) ==
-  c.shard => \A f \in DOMAIN o.files : InitClass(c, f) = "Old" => o.files[f] = "Old"
+  c.shard => /\ \A f \in DOMAIN o.files : InitClass(c, f) = "Old" => o.files[f] = "Old"
+             /\ (c.other # {} => o.ofile = "Old")      \* the file of a bystander tensor is a pre-existing file too
 
 (* not part of the statement (weaker reading): a destination that did not exist is absent or complete *)
 D_AbsentOrNew(c, o) == \A f \in DOMAIN o.files : InitClass(c, f) = "Absent" => o.files[f] \in {"Absent", "New"}
@@ -562,4 +586,5 @@ TypeOK ==
 ReturnsClean == out = "ok" => (~tdir /\ tfile.k = "absent"
                                /\ \A s \in 1..NShardsC(cfg) : DataClass(DestFileC(cfg, s)) = "New")
 MapsReleasedBeforeReplace == \A t \in cfg.backed : (DataClass(1) = "New" => ~mapped[t])
+BystandersUntouched == \A t \in cfg.other : mapped[t] /\ valid[t]     \* never released, never invalidated
 =============================================================================
